@@ -46,6 +46,8 @@ type Config struct {
 	Writer string `json:"writer"` // returns | yields | blocks
 	Big    bool   `json:"big,omitempty"` // one message larger than 64 KiB
 	Early  bool   `json:"early_close,omitempty"` // Close right after the last Write returned, without waiting for quiescence
+	NilAlert bool `json:"nil_alerter,omitempty"` // NewWriter(w, size, poll, nil)
+	BigCap bool   `json:"big_cap,omitempty"`     // producers write from a reused buffer of capacity 128 KiB
 }
 
 func (c Config) String() string {
@@ -55,6 +57,12 @@ func (c Config) String() string {
 	}
 	if c.Early {
 		m += " early-close"
+	}
+	if c.NilAlert {
+		m += " nil-alerter"
+	}
+	if c.BigCap {
+		m += " bigcap"
 	}
 	return fmt.Sprintf("P%d W%d size%d %s writer=%s", c.P, c.W, c.Size, m, c.Writer)
 }
@@ -177,17 +185,25 @@ func runOnce(cfg Config, ch vsched.Chooser, keepTrace bool) *result {
 		if cfg.Poller {
 			poll = time.Millisecond
 		}
-		dw := diode.NewWriter(ww, cfg.Size, poll, func(missed int) {
+		var alerter diode.Alerter = func(missed int) {
 			vsched.Progress()
 			r.alerts = append(r.alerts, missed)
 			r.reported += missed
 			vsched.Record("alert", 0, uint64(missed), true)
-		})
+		}
+		if cfg.NilAlert {
+			alerter = nil
+		}
+		dw := diode.NewWriter(ww, cfg.Size, poll, alerter)
 		done := 0
 		for p := 0; p < cfg.P; p++ {
 			p := p
 			vsched.GoNamed("producer"+strconv.Itoa(p), func() {
-				buf := make([]byte, 0, 1024)
+				bufCap := 1024
+				if cfg.BigCap {
+					bufCap = 128 << 10
+				}
+				buf := make([]byte, 0, bufCap)
 				for k := 0; k < cfg.W; k++ {
 					buf = append(buf[:0], message(p, k, cfg)...)
 					vsched.Record("write-start", uint64(p), uint64(k), true)
@@ -321,6 +337,17 @@ func judge(cfg Config, r *result) verdict {
 	v := verdict{}
 	s := r.sched
 	v.nontrivial = s.Preempt >= 1 && (r.lapped || r.retries > 0 || len(r.delivered) > 0 && r.written > 0)
+	if len(s.Panics) > 0 {
+		v.msg = "panic in the diode: " + s.Panics[0]
+		return v
+	}
+	if cfg.NilAlert && prop != "C10" {
+		// without an alerter the reported count is unobservable: only termination is judged
+		if (r.quiescentSeen || cfg.Early) && r.producersDone == cfg.P && cfg.Writer != "blocks" && !r.closeReturned {
+			v.msg = fmt.Sprintf("Close did not return (nil alerter; deadlock=%v, step bound hit=%v)", s.Deadlock, s.StepLimit)
+		}
+		return v
+	}
 	switch prop {
 	case "C10":
 		switch {
@@ -525,6 +552,8 @@ func genConfig(rt *rapid.T, small bool) Config {
 	}
 	c.Big = prop == "C10" && rapid.IntRange(0, 15).Draw(rt, "big") == 0
 	c.Early = (prop == "C11" || prop == "C12") && rapid.Bool().Draw(rt, "early")
+	c.NilAlert = rapid.IntRange(0, 7).Draw(rt, "nilalert") == 0
+	c.BigCap = prop == "C10" && rapid.IntRange(0, 5).Draw(rt, "bigcap") == 0
 	return c
 }
 
@@ -582,6 +611,8 @@ func dfsConfigs() []struct {
 		add(2, 1, 1, 2)
 		add(1, 3, 2, 2)
 	}
+	out = append(out, cb{Config{P: 1, W: 3, Size: 1, Writer: "returns", NilAlert: true}, 2}, cb{Config{P: 1, W: 3, Size: 1, Poller: true, Writer: "returns", NilAlert: true}, 2},
+		cb{Config{P: 2, W: 1, Size: 1, Writer: "returns", BigCap: true}, 2})
 	if prop == "C11" || prop == "C12" {
 		n := len(out)
 		for i := 0; i < n; i++ {
